@@ -1,5 +1,7 @@
 mod common;
 mod lexmc;
+mod codemc;
+mod workers;
 mod run;
 mod hostobj;
 mod kast;
@@ -24,9 +26,19 @@ fn main() {
         std::process::exit(2);
     }
     let engine = argv.remove(0);
+    if engine == "worker" {
+        common::install_quiet_panic_hook();
+        let mode = argv.first().cloned().unwrap_or_default();
+        let code = match mode.as_str() {
+            "code-run" => workers::worker_loop(&mut |req| codemc::worker_run(req)),
+            _ => 2,
+        };
+        std::process::exit(code);
+    }
     let args = Args::parse(argv);
     let code = match engine.as_str() {
         "lexmc" => lexmc::run(&args),
+        "codemc" => codemc::run(&args),
         "progmc-core" => progmc::run_profile(
             &args,
             run::RunCfg::default(),
